@@ -495,7 +495,7 @@ def render(ctx: Ctx) -> List[Ob]:
         # the title line: the tree's own rendering for True, the caller's text otherwise; only when title is truthy; before the walk
         for c in tl:
             ts = cond_texts(c.conds)
-            ok = ok and "title" in ts and not_after(ctx, tf, c.stmt, walk[0].stmt)
+            ok = ok and ("title" in ts or "title is True" in ts) and not_after(ctx, tf, c.stmt, walk[0].stmt)
         vals = {}
         for c in tl:
             if isinstance(c.value, ast.Name):
@@ -507,8 +507,8 @@ def render(ctx: Ctx) -> List[Ob]:
         if len(vals) == 1:
             ok = ok and list(vals)[0] in ("f'{self}' if title is True else f'{title}'", "str(self) if title is True else str(title)")
         else:
-            ok = ok and any("title is True" in t_ and v_ in ("f'{self}'", "str(self)") for v_, t_ in vals.items()) and any(
-                "not (title is True)" in t_ and v_ in ("f'{title}'", "str(title)", "title") for v_, t_ in vals.items())
+            ok = ok and any("title is True" in t_ and v_ in ("f'{self}'", "str(self)", "'{}'.format(self)") for v_, t_ in vals.items()) and any(
+                "not (title is True)" in t_ and v_ in ("f'{title}'", "str(title)", "title", "'{}'.format(title)") for v_, t_ in vals.items())
         wc = walk[0].value
         if isinstance(wc, ast.Call) and norm(resolve_expr(ctx, tf, walk[0].stmt, wc.func)) == "self._root.format_iter":
             kw = {k.arg: norm(resolve_expr(ctx, tf, walk[0].stmt, k.value)) for k in wc.keywords}
